@@ -1,5 +1,5 @@
 (* C17 - lemmas about the macro-expansion model ([search], [pass], [passes], [expand]). *)
-From Coq Require Import List Arith Bool Ascii Lia.
+From Coq Require Import List Arith Bool Ascii Lia NArith.
 From Cb Require Import C17.Model.
 Import ListNotations.
 
@@ -52,10 +52,10 @@ Proof. intros H ->. destruct fuel; cbn [search]; [reflexivity|]. rewrite H. refl
 Definition absent (t : table) (s : str) : Prop :=
   forall m, In m t -> mfn m = false -> find_from (mname m) s 0 = None.
 
-Lemma sweep_absent fuel name body s ch : find_from name s 0 = None -> sweep fuel name body s 0 ch = (s, ch).
+Lemma sweep_absent fuel limit name body s ch : find_from name s 0 = None -> sweep fuel limit name body s 0 ch = SGo s ch.
 Proof. intros H. destruct fuel; cbn [sweep]; [reflexivity|]. rewrite search_none_if_absent; auto. Qed.
 
-Lemma pass_absent t s ch : absent t s -> pass t s ch = (s, ch).
+Lemma pass_absent limit t s ch : absent t s -> pass limit t s ch = SGo s ch.
 Proof.
   revert ch; induction t as [|m r IH]; intros ch H; cbn [pass]; [reflexivity|].
   assert (Hr : absent r s) by (intros x Hx; apply H; right; exact Hx).
@@ -65,18 +65,21 @@ Proof.
   apply H; [left; reflexivity|exact Fn].
 Qed.
 
-(* a line that mentions no macro name is left byte-identical *)
-Lemma expand_absent_id t s : absent t s -> expand t s = s.
+(* a line that mentions no macro name is left byte-identical (and raises no expansion error) *)
+Lemma expand_absent_id t s : absent t s -> expand t s = (s, false).
 Proof.
   intros H. unfold expand, max_iterations. cbn [passes]. rewrite pass_absent by exact H. reflexivity.
 Qed.
 
 (* every replacement made by the repaired loop is a whole-word occurrence outside the string
-   literals of the text AS IT IS at that moment *)
-Lemma sweep_unfold f name body s pos ch :
-  sweep (S f) name body s pos ch =
+   literals of the text AS IT IS at that moment; the loop stops with the error flag as soon as the
+   text has outgrown the limit *)
+Lemma sweep_unfold f limit name body s pos ch :
+  sweep (S f) limit name body s pos ch =
   match search (S (List.length s)) name s (string_ranges s) pos with
-  | None => (s, ch)
-  | Some p => sweep f name body (replace_at s p (List.length name) body) (p + List.length body) true
+  | None => SGo s ch
+  | Some p => let s' := replace_at s p (List.length name) body in
+              if too_large limit s' then SOver s'
+              else sweep f limit name body s' (p + List.length body) true
   end.
 Proof. reflexivity. Qed.
